@@ -385,6 +385,9 @@ func main() {
 	}
 	kinds := []string{"dvar", "dvar", "inherit", "dset", "sub", "counter", "sorted", "sorted", "sortedrace", "evict", "wg"}
 	nstress := 150 * r.Scale
+	if r.Scale > 1 {
+		nstress *= 4 // thorough: spend the budget on interleavings
+	}
 	for i := 0; i < nstress; i++ {
 		for _, k := range kinds {
 			rng, sub := r.Rng.Fork()
